@@ -17,6 +17,10 @@ def run(ctx):
     ctx.rule("R10-5", "the gate (env_in_token) and the rewriter (expand_one_env) may disagree on what a reference is: the "
                       "loop that re-applies the rewriter leaves when a rewrite changed nothing (explicit comparison of "
                       "the new text with the old on every cycle)")
+    ctx.rule("R10-6", "the rewriter is applied only to text the gate has just accepted: at every call of expand_one_env(t) "
+                      "the fact env_in_token(t) == true holds for the current value of t on every path (the gate keeps "
+                      "`$1`, `$(...)`, `NAME='..$X..'` and text without a reference away from the rewriter, whose own "
+                      "pattern is wider)")
     ctx.rule("R10-3", "$? formats previous_status, $$ formats getpid()")
     for crate in ctx.crates:
         b = crate.fn("shell::expand_env")
@@ -28,6 +32,7 @@ def run(ctx):
                     "(%s)" % sorted(scanners))
         rescan_rule(ctx, crate, b, scanners)
         fixpoint_rule(ctx, crate, b, scanners)
+        gate_rule(ctx, crate, b)
         res = etag.run_sites(ctx, "R10-2", crate, fn_filter=lambda p: p == "shell::expand_env")
         ctx.floor("R10-2", crate, "inspections in expand_env", len(res), 1)
         c03.dollar_rule(ctx, crate)
@@ -81,3 +86,26 @@ def fixpoint_rule(ctx, crate, b, scanners):
                detail=detail if not ok else None)
     ctx.require(n == 1, "R10-5", "R10-5|%s|loop" % b.path, "expected one loop gated by a `$` scanner in expand_env, found %d" % n,
                 b.path)
+
+
+def gate_rule(ctx, crate, b):
+    from .c05 import must_facts
+    from ..mir import last_seg, strip_sites
+    sites = [bb for bb, t, c in b.calls() if c.endswith("shell::expand_one_env")]
+    if not ctx.require(bool(sites), "R10-6", "R10-6|%s|anchor" % b.path, "no call of expand_one_env in expand_env", b.path):
+        return
+    for k, bb in enumerate(sites):
+        arg = b.call_args(bb)[-1]
+        root = mir.root_local_expr(b.expand_vars(strip_sites(arg)))
+        rel = lambda a: a[0] == "call" and a[1].endswith("shell::env_in_token")
+        facts, n = must_facts(b, bb, (), relevant=rel, cache_key=("gate", k))
+        ctx.paths_enumerated += n
+        ok = False
+        for a, v in facts or ():
+            if v is True and a[0] == "call" and a[1].endswith("shell::env_in_token") and a[2] and \
+                    mir.root_local_expr(b.expand_vars(strip_sites(a[2][0]))) == root:
+                ok = True
+        ctx.ob("R10-6", b.path, "expand_one_env is applied only under env_in_token(<same text>) == true", ok,
+               key="R10-6|%s|ungated-rewrite#%d" % (b.path, k), where=b.loc(bb), crate=crate.kind,
+               detail=None if ok else "the rewriter's pattern also matches `$1`, `${1}` and references the gate excludes on "
+               "purpose: applied to ungated text (e.g. a value just substituted) it deletes or expands them")
